@@ -3,6 +3,7 @@ package props
 import (
 	"bytes"
 	"fmt"
+	"regexp"
 	"strings"
 	"testing"
 	"time"
@@ -68,6 +69,10 @@ func (p *c03) Gen(seed uint64, i int, tier string) (any, bool) {
 	shape := DefaultShape
 	shape.StableOnly = true
 	shape.MaxContent = 300
+	// S/MIME-signed messages: every producer runs twice per render (signing pre-render, then
+	// the real one), and the signature differs from render to render, so "the complete
+	// rendering" is judged on the signed entity
+	shape.AllowSMIME = true
 	nm := 1 + r.Intn(4)
 	var batch []MsgSpec
 	for m := 0; m < nm; m++ {
@@ -216,6 +221,8 @@ func (sc *C03Scenario) faultOffset(ls []dataLayout) (int64, bool) {
 	return 0, false
 }
 
+var outerBoundaryRe = regexp.MustCompile(`boundary="?[0-9a-f]{40,}"?`)
+
 func canonDot(b []byte) []byte {
 	if len(b) == 0 || !bytes.HasSuffix(b, []byte("\r\n")) {
 		return append(append([]byte(nil), b...), '\r', '\n')
@@ -326,6 +333,19 @@ func (p *c03) Exec(t *testing.T, scAny any) Outcome {
 		for _, ref := range m.refs {
 			if bytes.Equal(c.Content, ref) {
 				match = true
+			}
+			if m.b.Spec.SMIME != "" {
+				// same header block, same signed entity, and a signature part after it
+				ce, ok1 := signedEntity(c.Content)
+				re, ok2 := signedEntity(ref)
+				ch, _ := splitEntity(c.Content)
+				rh, _ := splitEntity(ref)
+				// (the boundary of the outer multipart/signed is drawn anew by every render)
+				ch, rh = outerBoundaryRe.ReplaceAll(ch, []byte("boundary=X")), outerBoundaryRe.ReplaceAll(rh, []byte("boundary=X"))
+				if ok1 && ok2 && bytes.Equal(ce, re) && bytes.Equal(ch, rh) && bytes.Contains(c.Content, []byte("application/pkcs7-signature")) &&
+					bytes.HasSuffix(bytes.TrimRight(c.Content, "\r\n"), []byte("--")) {
+					match = true
+				}
 			}
 		}
 		if !match {
